@@ -137,13 +137,13 @@ fn main() {
 
 /// Full path of a definition including the crate name, stable across crates.
 pub fn path_of<'tcx>(tcx: TyCtxt<'tcx>, did: rustc_span::def_id::DefId) -> String {
-    use rustc_middle::ty::print::{with_no_trimmed_paths, with_resolve_crate_name};
-    with_resolve_crate_name!(with_no_trimmed_paths!(tcx.def_path_str(did)))
+    use rustc_middle::ty::print::{with_no_trimmed_paths, with_no_visible_paths, with_resolve_crate_name};
+    with_resolve_crate_name!(with_no_visible_paths!(with_no_trimmed_paths!(tcx.def_path_str(did))))
 }
 
 pub fn ty_str<'tcx>(ty: rustc_middle::ty::Ty<'tcx>) -> String {
-    use rustc_middle::ty::print::{with_no_trimmed_paths, with_resolve_crate_name};
-    with_resolve_crate_name!(with_no_trimmed_paths!(ty.to_string()))
+    use rustc_middle::ty::print::{with_no_trimmed_paths, with_no_visible_paths, with_resolve_crate_name};
+    with_resolve_crate_name!(with_no_visible_paths!(with_no_trimmed_paths!(ty.to_string())))
 }
 
 pub fn span_loc<'tcx>(tcx: TyCtxt<'tcx>, sp: rustc_span::Span) -> (String, usize) {
